@@ -128,6 +128,9 @@ mod tx;
 
 pub use bucket::Bucket;
 pub use cursor::{Buckets, Cursor, KVPairs, ToBuckets, ToKVPairs};
+#[cfg(feature = "verif-hooks")]
+pub mod verif_hooks;
+
 pub use data::*;
 pub use db::{OpenOptions, DB};
 pub use errors::*;
